@@ -57,8 +57,9 @@ type c10in struct {
 	// response for the same ato and instant (no pacing)
 	InProgress bool   `json:"in_progress,omitempty"`
 	Ato        string `json:"ato,omitempty"`
-	Mode       string `json:"mode,omitempty"` // number | tlt
-	MPD        string `json:"mpd,omitempty"`  // MPD name when it is not the asset's default one
+	Mode       string `json:"mode,omitempty"`   // number | tlt
+	MPD        string `json:"mpd,omitempty"`    // MPD name when it is not the asset's default one
+	Server     string `json:"server,omitempty"` // "" | repdata-write | repdata-restart: how the serving instance was started
 	// b64 / ids
 	Fn    string `json:"fn,omitempty"`  // pack | unpack | from | fromtrunc | kid2key | key2kid | kidfromstring
 	Str   string `json:"str,omitempty"` // input string (latin-1 code points = bytes)
@@ -159,12 +160,18 @@ func loadCPIX(cfgFile string) (map[string]*cpixPkg, error) {
 // ---------------------------------------------------------------- environment
 
 type env struct {
-	ls     *lib.Livesim // bundled assets + DRM packages
-	pre    *lib.Livesim // scratch vodroot with the pre-encrypted asset
-	preErr string
-	assets map[string]*lib.TLAsset
-	cpix   map[string]*cpixPkg
-	segDur map[string]int64
+	ls *lib.Livesim // bundled assets + DRM packages
+	// the same content served by differently started servers: "" = assets scanned, no
+	// representation-data directory; "repdata-write" = first start with a representation-data
+	// directory (scanned, metadata written); "repdata-restart" = started on that directory
+	// afterwards (representations restored from the stored metadata)
+	servers map[string]*lib.Livesim
+	notes   []string
+	pre     *lib.Livesim // scratch vodroot with the pre-encrypted asset
+	preErr  string
+	assets  map[string]*lib.TLAsset
+	cpix    map[string]*cpixPkg
+	segDur  map[string]int64
 }
 
 func newEnv(scratch string) (*env, error) {
@@ -180,7 +187,27 @@ func newEnv(scratch string) (*env, error) {
 	if err != nil {
 		return nil, err
 	}
-	e := &env{ls: ls, assets: map[string]*lib.TLAsset{}, segDur: map[string]int64{}}
+	e := &env{ls: ls, assets: map[string]*lib.TLAsset{}, segDur: map[string]int64{}, servers: map[string]*lib.Livesim{"": ls}}
+	repData := filepath.Join(scratch, "repdata")
+	if err := os.MkdirAll(repData, 0o755); err != nil {
+		return nil, err
+	}
+	for _, st := range []struct {
+		name  string
+		write bool
+	}{{"repdata-write", true}, {"repdata-restart", false}} {
+		s, err := lib.NewLivesim(lib.TestVodRoot, func(cfg *app.ServerConfig) {
+			cfg.DrmCfg, cfg.DrmCfgFile = dcfg, drmCfgFile
+			cfg.RepDataRoot, cfg.WriteRepData = repData, st.write
+		})
+		if err != nil {
+			return nil, fmt.Errorf("server %s: %w", st.name, err)
+		}
+		e.servers[st.name] = s
+	}
+	if m, _ := filepath.Glob(filepath.Join(repData, "testpic_2s", "*_data.json*")); len(m) == 0 {
+		e.notes = append(e.notes, "no representation metadata was written below "+repData+": the restart instance scans the assets again")
+	}
 	for _, a := range as {
 		e.assets[a.Path] = a
 		sd, _, _ := app.VerifC09AssetInfo(ls.Srv, a.Path)
@@ -409,7 +436,10 @@ func unb64url(s string) ([]byte, error) {
 }
 
 func (e *env) runSeg(in c10in) (o segObs) {
-	ls := e.ls
+	ls := e.servers[in.Server]
+	if ls == nil {
+		ls = e.ls
+	}
 	a := e.assets[in.Asset]
 	r := a.Rep(in.Rep)
 	o.FirstDiff = -1
@@ -1115,6 +1145,18 @@ func (e *env) generate(rng *rand.Rand, c *lib.Ctx) []c10in {
 							kind += ":chunked"
 						}
 						add(kind, in)
+						// the same request on the servers started with a representation-data directory:
+						// every one in the thorough tier, the first of each (asset, drm, track) otherwise
+						if c.Thorough() || sg == segs[0] {
+							for _, srv := range []string{"repdata-restart", "repdata-write"} {
+								if srv == "repdata-write" && !c.Thorough() && !ch {
+									continue
+								}
+								in2 := in
+								in2.Server = srv
+								add("server:"+srv, in2)
+							}
+						}
 					}
 				}
 			}
@@ -1331,6 +1373,7 @@ func runC10(c *lib.Ctx) error {
 		e.oracle(c, "replay", in, ao)
 		return nil
 	}
+	c.Res.Notes = append(c.Res.Notes, e.notes...)
 	rng := rand.New(rand.NewSource(c.Seed))
 	ins := e.generate(rng, c)
 	obs := make([]anyObs, len(ins))
